@@ -4,7 +4,6 @@ import (
 	"context"
 	"encoding/json"
 	"fmt"
-	"reflect"
 	"sort"
 	"strings"
 	"time"
@@ -137,6 +136,49 @@ func (h *sshHarness) observe(ctx context.Context, via, pid, msg, line string, wi
 
 // eventDiff compares an emitted event (JSON snapshot, decoded) with the
 // expectation built from the generated fields. Returns "" when equal.
+// knownKeys: every map key any message form's expected event uses, per map.
+// A key the oracle knows must appear exactly where the oracle expects it; a
+// key it has never heard of (a field added by a later version) is not its
+// business - the property fixes the values of the listed fields, not the
+// absence of further ones.
+var knownKeys = func() map[string]map[string]bool {
+	out := map[string]map[string]bool{"subjects": {}, "source.extra": {}, "data": {}, "metadata.extra": {}, "target": {"host": true, "machine-id": true}}
+	r := vlib.NewRng(1, "known-keys")
+	for _, f := range vlib.SshForms {
+		for n := 0; n < 8; n++ {
+			e := vlib.GenSsh(r, f, -1, -1).Expected("1")
+			for k := range e.Subjects {
+				out["subjects"][k] = true
+			}
+			for k := range e.SrcExtra {
+				out["source.extra"][k] = true
+			}
+			for k := range e.Data {
+				out["data"][k] = true
+			}
+			for k := range e.MetaExtra {
+				out["metadata.extra"][k] = true
+			}
+		}
+	}
+	return out
+}()
+
+// mapDiff: every expected key with its value, no known key that is not expected.
+func mapDiff(which string, got, want map[string]string) bool {
+	for k, v := range want {
+		if g, ok := got[k]; !ok || g != v {
+			return true
+		}
+	}
+	for k := range got {
+		if _, ok := want[k]; !ok && knownKeys[which][k] {
+			return true
+		}
+	}
+	return false
+}
+
 func eventDiff(ev *auditevent.AuditEvent, exp vlib.ExpEvent, t0, t1 time.Time) string {
 	var d []string
 	if ev.Type != "UserLogin" {
@@ -148,7 +190,7 @@ func eventDiff(ev *auditevent.AuditEvent, exp vlib.ExpEvent, t0, t1 time.Time) s
 	if ev.Outcome != exp.Outcome {
 		d = append(d, fmt.Sprintf("outcome=%q want %q", ev.Outcome, exp.Outcome))
 	}
-	if !reflect.DeepEqual(ev.Subjects, exp.Subjects) {
+	if mapDiff("subjects", ev.Subjects, exp.Subjects) {
 		d = append(d, fmt.Sprintf("subjects=%v want %v", ev.Subjects, exp.Subjects))
 	}
 	if ev.Source.Type != "IP" || ev.Source.Value != exp.SrcValue {
@@ -162,20 +204,29 @@ func eventDiff(ev *auditevent.AuditEvent, exp vlib.ExpEvent, t0, t1 time.Time) s
 	if wantExtra == nil {
 		wantExtra = map[string]string{}
 	}
-	if !reflect.DeepEqual(gotExtra, wantExtra) {
+	if mapDiff("source.extra", gotExtra, wantExtra) {
 		d = append(d, fmt.Sprintf("source.extra=%v want %v", gotExtra, wantExtra))
 	}
 	gotData := map[string]string{}
 	if ev.Data != nil {
-		if err := json.Unmarshal(*ev.Data, &gotData); err != nil {
-			d = append(d, "data is not a string map: "+string(*ev.Data))
+		var anyData map[string]any
+		if err := json.Unmarshal(*ev.Data, &anyData); err != nil {
+			d = append(d, "data is not a JSON object: "+string(*ev.Data))
+		}
+		for k, v := range anyData {
+			if sv, ok := v.(string); ok {
+				gotData[k] = sv
+			} else {
+				b, _ := json.Marshal(v)
+				gotData[k] = string(b)
+			}
 		}
 	}
 	wantData := exp.Data
 	if wantData == nil {
 		wantData = map[string]string{}
 	}
-	if !reflect.DeepEqual(gotData, wantData) {
+	if mapDiff("data", gotData, wantData) {
 		d = append(d, fmt.Sprintf("data=%v want %v", gotData, wantData))
 	}
 	gotMeta := map[string]string{}
@@ -186,10 +237,10 @@ func eventDiff(ev *auditevent.AuditEvent, exp vlib.ExpEvent, t0, t1 time.Time) s
 	if wantMeta == nil {
 		wantMeta = map[string]string{}
 	}
-	if !reflect.DeepEqual(gotMeta, wantMeta) {
+	if mapDiff("metadata.extra", gotMeta, wantMeta) {
 		d = append(d, fmt.Sprintf("metadata.extra=%v want %v", gotMeta, wantMeta))
 	}
-	if !reflect.DeepEqual(ev.Target, map[string]string{"host": vNode, "machine-id": vMID}) {
+	if mapDiff("target", ev.Target, map[string]string{"host": vNode, "machine-id": vMID}) {
 		d = append(d, fmt.Sprintf("target=%v", ev.Target))
 	}
 	if !t0.IsZero() && (ev.LoggedAt.Before(t0.Add(-time.Millisecond)) || ev.LoggedAt.After(t1.Add(time.Millisecond))) {
